@@ -1434,14 +1434,16 @@ Proof. intros a b E. exact E. Qed.
 
 Definition c_all : config := mkCfg LAll true false.
 
-(* --- the unguarded statement is false: a byte moves from the end of input a to the start of
-   input b; the key (unframed concatenation of the file contents) does not change, the second
-   build is a hit and serves the bytes of the first state *)
-Definition rf_t : tdef :=
-  mkTD (mkLabel (lit "p") (lit "t")) (lit "c") [] [lit "a"; lit "b"] [mkOut OFile (lit "o")]
+(* --- the unguarded statement is false OF THE MODEL, whatever the key encoding: what a command writes
+   ([td_salt], [td_beh]) is a separate field of the model's target and is not determined by the command
+   text that enters the key.  Two snapshots that differ only in the salt share the key; the second build
+   is a hit and serves the bytes of the first snapshot.  [key_faithful] excludes exactly this: in the
+   implementation the command text IS what runs, and the generators derive salt and behaviour from it *)
+Definition rf_t (salt : str) : tdef :=
+  mkTD (mkLabel (lit "p") (lit "t")) (lit "c") salt [lit "a"] [mkOut OFile (lit "o")]
        [] [] false false BNormal false.
-Definition rf_s1 : sources := mkSrc [NTarget rf_t] [(lit "p/a", lit "xy"); (lit "p/b", lit "z")].
-Definition rf_s2 : sources := mkSrc [NTarget rf_t] [(lit "p/a", lit "x"); (lit "p/b", lit "yz")].
+Definition rf_s1 : sources := mkSrc [NTarget (rf_t (lit "1"))] [(lit "p/a", lit "x")].
+Definition rf_s2 : sources := mkSrc [NTarget (rf_t (lit "2"))] [(lit "p/a", lit "x")].
 Definition rf_ops : list op := [OpSources rf_s1; OpBuild c_all [0]; OpSources rf_s2].
 
 Ltac nodup_tac :=
@@ -1453,7 +1455,7 @@ Proof. split; [nodup_tac | reflexivity]. Qed.
 Lemma rf_src_ok2 : src_ok rf_s2.
 Proof. split; [nodup_tac | reflexivity]. Qed.
 
-Theorem c01_refuted :
+Theorem c01_needs_key_faithful :
   exists (H : str -> str) ops cfg roots ext' i t o,
     (forall a b, H a = H b -> a = b) /\ Forall op_ok ops /\ cfg_ok cfg /\
     let y := run_history H ops in
@@ -1463,7 +1465,7 @@ Theorem c01_refuted :
     nth i (br_status r) TNone = THit /\ nth i (br_status rc) TNone = TExecuted /\
     ws_get (out_path t o) (w_ws (br_world r)) <> ws_get (out_path t o) (w_ws (br_world rc)).
 Proof.
-  exists idH, rf_ops, c_all, [0], [], 0, rf_t, (mkOut OFile (lit "o")).
+  exists idH, rf_ops, c_all, [0], [], 0, (rf_t (lit "2")), (mkOut OFile (lit "o")).
   split; [exact idH_inj|]. split.
   { apply Forall_cons; [exact rf_src_ok1|]. apply Forall_cons; [split; reflexivity|].
     apply Forall_cons; [exact rf_src_ok2 | apply Forall_nil]. }
